@@ -98,7 +98,7 @@ def tlc_mc(job, module, base_cfg, overrides=None, workers=16, timeout=900, cover
     """Run an exhaustive TLC model check. Returns a dict with statistics."""
     cfg_text = render_cfg(base_cfg, overrides)
     d = _stage(job, None, cfg_text, module + ".cfg")
-    cmd = ["timeout", str(timeout), "java", "-XX:+UseParallelGC"]
+    cmd = ["timeout", str(timeout), "java", "-XX:+UseParallelGC", "-Xss256m"]
     if heap:
         cmd.append("-Xmx" + heap)
     cmd += ["-cp", "/opt/veriftools/tla/tla2tools.jar:/opt/veriftools/tla/CommunityModules-deps.jar", "tlc2.TLC",
